@@ -31,7 +31,9 @@ Inductive thunk : Type :=
 | Std (b : body)
 | Rev (orig : body) (deps : option (list N)) (cached : option nat).   (* deps None = FieldDeps::Unknown *)
 
-Record ifld : Type := { iprio : prio; ival : option nat }.               (* value: a thunk id *)
+(* a field: priority, value (a thunk id), pending contracts (kind and the thunk id of the closure of
+   the contract) *)
+Record ifld : Type := { iprio : prio; ival : option nat; ictrs : list (ckind * nat) }.
 Definition irec : Type := list (N * ifld).
 Record state : Type := { thunks : list thunk; recs : list irec }.
 
@@ -90,27 +92,49 @@ Definition mk_thunk (b : body) (deps : option (list N)) : thunk :=
   end.
 
 (* ---------------------------------------------------------------- evaluation of a record literal *)
-(* closurize_rec_record: constants are not closurized at all (they behave as standard thunks);
-   every other body gets BindingType::Revertible(deps) unless deps is known to be empty *)
-Definition lit_thunk (c : cfg) (names : list N) (t : tm) : thunk :=
+(* closurize_rec_record: Field::closurize_as_btype gives the value and every pending contract of a
+   field the SAME binding type, Revertible(deps of the field) -- the dependencies of a field are the
+   recursive fields free in its annotations and its value (free_vars.rs, Field) -- unless they are
+   known to be empty.  Constants are not closurized at all (they behave as standard thunks). *)
+Definition field_deps (c : cfg) (names : list N) (d : fdef) : option (list N) :=
+  if c_unknown c then None
+  else Some (filter (fun x => mem x names)
+               (flat_map (fun kc => c_an c (snd kc)) (fctrs d)
+                ++ match fbody d with Some t => c_an c t | None => [] end)).
+
+Definition lit_thunk (deps : option (list N)) (t : tm) : thunk :=
   match t with
   | Num _ => Std (BSrc t)
-  | _ => mk_thunk (BSrc t)
-           (if c_unknown c then None else Some (filter (fun x => mem x names) (c_an c t)))
+  | _ => mk_thunk (BSrc t) deps
   end.
+
+(* the contract `std.contract.from_predicate (fun v => v >= e)` is never a constant *)
+Definition ctr_thunk (deps : option (list N)) (t : tm) : thunk := mk_thunk (BSrc t) deps.
+
+Fixpoint alloc_ctrs (deps : option (list N)) (ths : list thunk) (cs : list ctr) : list thunk * list (ckind * nat) :=
+  match cs with
+  | [] => (ths, [])
+  | (k, t) :: cs' =>
+      let (ths', r) := alloc_ctrs deps (ths ++ [ctr_thunk deps t]) cs' in
+      (ths', (k, length ths) :: r)
+  end.
+
+Definition alloc_fld (c : cfg) (names : list N) (ths : list thunk) (d : fdef) : list thunk * ifld :=
+  let deps := field_deps c names d in
+  let (ths1, v) := match fbody d with
+                   | None => (ths, None)
+                   | Some t => (ths ++ [lit_thunk deps t], Some (length ths))
+                   end in
+  let (ths2, cs) := alloc_ctrs deps ths1 (fctrs d) in
+  (ths2, {| iprio := fprio d; ival := v; ictrs := cs |}).
 
 Fixpoint alloc_lit (c : cfg) (names : list N) (ths : list thunk) (l : literal) : list thunk * irec :=
   match l with
   | [] => (ths, [])
   | (k, d) :: l' =>
-      match fbody d with
-      | None =>
-          let (ths', r) := alloc_lit c names ths l' in
-          (ths', (k, {| iprio := fprio d; ival := None |}) :: r)
-      | Some t =>
-          let (ths', r) := alloc_lit c names (ths ++ [lit_thunk c names t]) l' in
-          (ths', (k, {| iprio := fprio d; ival := Some (length ths) |}) :: r)
-      end
+      let (ths1, f) := alloc_fld c names ths d in
+      let (ths2, r) := alloc_lit c names ths1 l' in
+      (ths2, (k, f) :: r)
   end.
 
 (* init_cached on one thunk for the record instance [rid]; None = the assertion fails (panic) *)
@@ -126,24 +150,27 @@ Definition patch_thunk (pm : patch_mode) (rid : nat) (th : thunk) : option thunk
       end
   end.
 
-(* patch_field over the fields of the record, in order *)
-Fixpoint patch_all (pm : patch_mode) (rid : nat) (ths : list thunk) (r : irec) : option (list thunk) :=
-  match r with
+(* all the thunks of a field: the value, then the pending contracts *)
+Definition ftids (f : ifld) : list nat :=
+  match ival f with Some t => [t] | None => [] end ++ map snd (ictrs f).
+
+Fixpoint patch_tids (pm : patch_mode) (rid : nat) (ths : list thunk) (ts : list nat) : option (list thunk) :=
+  match ts with
   | [] => Some ths
-  | (_, f) :: r' =>
-      match ival f with
-      | None => patch_all pm rid ths r'
-      | Some tid =>
-          match nth_error ths tid with
+  | tid :: ts' =>
+      match nth_error ths tid with
+      | None => None
+      | Some th =>
+          match patch_thunk pm rid th with
           | None => None
-          | Some th =>
-              match patch_thunk pm rid th with
-              | None => None
-              | Some th' => patch_all pm rid (set_nth tid th' ths) r'
-              end
+          | Some th' => patch_tids pm rid (set_nth tid th' ths) ts'
           end
       end
   end.
+
+(* patch_field (value, then every pending contract) over the fields of the record, in order *)
+Definition patch_all (pm : patch_mode) (rid : nat) (ths : list thunk) (r : irec) : option (list thunk) :=
+  patch_tids pm rid ths (flat_map (fun kf => ftids (snd kf)) r).
 
 (* Closurize for NickelValue with BindingType::Normal, applied by %record/insert% to the value of a
    dynamically named field: a thunk without dependencies is reused, any other thunk is wrapped *)
@@ -154,14 +181,15 @@ Definition closurize_dyn (c : cfg) (ths : list thunk) (tid : nat) : list thunk *
   end.
 
 (* the dynamically named fields are inserted one by one into the record of the static fields; the
-   model keeps all fields in one record and only performs the closurization of the inserted values *)
+   model keeps all fields in one record and only performs the closurization of the inserted values
+   (the pending contracts travel inside the RecordInsert operation, they are not closurized again) *)
 Fixpoint insert_dyn (c : cfg) (ths : list thunk) (l : literal) (r : irec) : list thunk * irec :=
   match l, r with
   | (_, d) :: l', (k, f) :: r' =>
       let (ths1, f1) :=
         match fdyn d, ival f with
         | true, Some tid => let (ths1, tid1) := closurize_dyn c ths tid in
-                            (ths1, {| iprio := iprio f; ival := Some tid1 |})
+                            (ths1, {| iprio := iprio f; ival := Some tid1; ictrs := ictrs f |})
         | _, _ => (ths, f)
         end in
       let (ths2, r2) := insert_dyn c ths1 l' r' in
@@ -195,13 +223,26 @@ Definition revert_tid (m : revert_mode) (ths : list thunk) (tid : nat) : list th
   | _ => (ths, tid)
   end.
 
-Definition revert_fld (m : revert_mode) (ths : list thunk) (f : ifld) : list thunk * ifld :=
-  match ival f with
-  | None => (ths, f)
-  | Some tid =>
-      let (ths', tid') := revert_tid m ths tid in
-      (ths', {| iprio := iprio f; ival := Some tid' |})
+Fixpoint revert_ctrs (m : revert_mode) (ths : list thunk) (cs : list (ckind * nat)) : list thunk * list (ckind * nat) :=
+  match cs with
+  | [] => (ths, [])
+  | (k, tid) :: cs' =>
+      let (ths1, tid') := revert_tid m ths tid in
+      let (ths2, r) := revert_ctrs m ths1 cs' in
+      (ths2, (k, tid') :: r)
   end.
+
+Definition revert_val (m : revert_mode) (ths : list thunk) (v : option nat) : list thunk * option nat :=
+  match v with
+  | None => (ths, None)
+  | Some tid => let (ths', tid') := revert_tid m ths tid in (ths', Some tid')
+  end.
+
+(* RevertClosurize for Field: the value, then the pending contracts *)
+Definition revert_fld (m : revert_mode) (ths : list thunk) (f : ifld) : list thunk * ifld :=
+  let (ths1, v) := revert_val m ths (ival f) in
+  let (ths2, cs) := revert_ctrs m ths1 (ictrs f) in
+  (ths2, {| iprio := iprio f; ival := v; ictrs := cs |}).
 
 Fixpoint revert_all (m : revert_mode) (ths : list thunk) (r : irec) : list thunk * irec :=
   match r with
@@ -237,8 +278,10 @@ Definition saturate (ths : list thunk) (names : list N) (tid : nat) : body * lis
   | None => (BSrc (Num 0), [])          (* dangling thunk id: no such value in Rust *)
   end.
 
-(* merge_fields: the (value1, value2) x priority match *)
-Definition merge_fld (c : cfg) (names : list N) (ths : list thunk) (f1 f2 : ifld) : list thunk * ifld :=
+(* merge_fields: the (value1, value2) x priority match for the value, then
+   combine_dedup(revert(pending_contracts1), revert(pending_contracts2)) (the contracts of this
+   fragment are functions, which contract_eq never identifies: nothing is dropped) *)
+Definition merge_val (c : cfg) (names : list N) (ths : list thunk) (f1 f2 : ifld) : list thunk * (prio * option nat) :=
   match ival f1, ival f2 with
   | Some t1, Some t2 =>
       match pcmp (iprio f1) (iprio f2) with
@@ -247,14 +290,20 @@ Definition merge_fld (c : cfg) (names : list N) (ths : list thunk) (f1 f2 : ifld
           let (b1, d1) := saturate ths names t1 in
           let (b2, d2) := saturate ths names t2 in
           let th := mk_thunk (BMerge b1 d1 b2 d2) (union_deps (deps_of ths t1) (deps_of ths t2)) in
-          (ths ++ [th], {| iprio := iprio f1; ival := Some (length ths) |})
-      | Gt => revert_fld (c_revert c) ths f1
-      | Lt => revert_fld (c_revert c) ths f2
+          (ths ++ [th], (iprio f1, Some (length ths)))
+      | Gt => let (ths', v) := revert_val (c_revert c) ths (ival f1) in (ths', (iprio f1, v))
+      | Lt => let (ths', v) := revert_val (c_revert c) ths (ival f2) in (ths', (iprio f2, v))
       end
-  | Some _, None => revert_fld (c_revert c) ths f1
-  | None, Some _ => revert_fld (c_revert c) ths f2
-  | None, None => (ths, {| iprio := PNeut; ival := None |})
+  | Some _, None => let (ths', v) := revert_val (c_revert c) ths (ival f1) in (ths', (iprio f1, v))
+  | None, Some _ => let (ths', v) := revert_val (c_revert c) ths (ival f2) in (ths', (iprio f2, v))
+  | None, None => (ths, (PNeut, None))
   end.
+
+Definition merge_fld (c : cfg) (names : list N) (ths : list thunk) (f1 f2 : ifld) : list thunk * ifld :=
+  let (ths1, pv) := merge_val c names ths f1 f2 in
+  let (ths2, cs1) := revert_ctrs (c_revert c) ths1 (ictrs f1) in
+  let (ths3, cs2) := revert_ctrs (c_revert c) ths2 (ictrs f2) in
+  (ths3, {| iprio := fst pv; ival := snd pv; ictrs := cs1 ++ cs2 |}).
 
 Fixpoint merge_all (c : cfg) (names : list N) (ths : list thunk) (ctr : list (N * (ifld * ifld)))
   : list thunk * irec :=
@@ -316,7 +365,8 @@ Definition in_deps (x : N) (d : option (list N)) : bool :=
   | Some l => mem x l
   end.
 
-(* field [k] of record instance [rid], given how thunks evaluate *)
+(* field [k] of record instance [rid], given how thunks evaluate: the value with the pending
+   contracts applied (what rec_env binds the name to, and what an access or the export observes) *)
 Definition field_via (ith : nat -> outcome) (st : state) (rid : nat) (k : N) : outcome :=
   match nth_error (recs st) rid with
   | None => Panic
@@ -326,7 +376,7 @@ Definition field_via (ith : nat -> outcome) (st : state) (rid : nat) (k : N) : o
       | Some f =>
           match ival f with
           | None => Err MissingDef
-          | Some tid => ith tid
+          | Some tid => apply_ctrs (ith tid) (map (fun kc => (fst kc, ith (snd kc))) (ictrs f))
           end
       end
   end.
